@@ -69,9 +69,53 @@ def metas_with_details(rng, n):
     return out
 
 
+def layout_mixed_resolution(rng):
+    """a valid NON-DISJOINT slice: fine (monthly / quarterly) periods plus coarser or finer periods
+    that share a start with a fine period (different end), share an end (different start), are
+    nested inside one, or contain several — e.g. a quarterly triangle added to its annual
+    aggregation. Rows (ps, pe, [evals])."""
+    fine = rng.choice([1, 3])
+    start = D(rng.randrange(1995, 2030), rng.choice([1, 4, 7, 10]), 1)
+    rows = []
+    for i in range(rng.randrange(1, 5)):
+        ps = gen.add_months_int(start, i * fine)
+        pe = gen.add_months_int(ps, fine - 1, end=True)
+        rows.append((ps, pe))
+    extra = []
+    for _ in range(rng.randrange(1, 4)):
+        bps, bpe = rng.choice(rows)
+        mode = rng.choice(["same-start", "same-start", "same-end", "nested", "containing"])
+        k = rng.randrange(2, 5)
+        if mode == "same-start":
+            ps, pe = bps, gen.add_months_int(bps, fine * k - 1, end=True)
+        elif mode == "same-end":
+            ps, pe = gen.add_months_int(bps, -fine * (k - 1)), bpe
+        elif mode == "nested":
+            ps = bps + datetime.timedelta(days=rng.choice([0, 1, 5]))
+            pe = bpe - datetime.timedelta(days=rng.choice([1, 5, 10]))
+            if pe < ps:
+                pe = ps
+        else:
+            ps = gen.add_months_int(bps, -fine)
+            pe = gen.add_months_int(bpe, fine * k, end=True)
+        if (ps, pe) not in rows and (ps, pe) not in extra:
+            extra.append((ps, pe))
+    out = []
+    for ps, pe in rows + extra:
+        n_ev = rng.randrange(1, 4)
+        lags = sorted(rng.sample(range(0, 6), n_ev))
+        if (pe + DAY).day == 1:
+            evs = [gen.add_months_int(pe, fine * j, end=True) for j in lags]
+        else:
+            evs = [pe + datetime.timedelta(days=31 * j) for j in lags]
+        out.append((ps, pe, evs))
+    rng.shuffle(out)
+    return out
+
+
 def make_cells(rng, max_cells=28):
     n_slices = rng.choice([1, 1, 2, 2, 3, 4])
-    layout = rng.choice(["regular", "ragged", "daily", "daily"])
+    layout = rng.choice(["regular", "ragged", "daily", "daily", "mixed-res", "mixed-res"])
     kind = rng.choice(["C", "U", "I"])
     vkind = rng.choice(["int", "float", "iarr", "farr"])
     fields = rng.sample(gen.FIELDS, rng.randrange(1, 5))
@@ -81,6 +125,8 @@ def make_cells(rng, max_cells=28):
     def mk_rows():
         if layout == "daily":
             return gen.layout_daily(rng)
+        if layout == "mixed-res":
+            return layout_mixed_resolution(rng)
         return gen.layout_regular(rng, shape="ragged" if layout == "ragged" else None)
 
     rows = mk_rows()
@@ -502,8 +548,8 @@ if __name__ == "__main__":
         "C11", module="Bermuda.Properties.C11", driver_targets=["drv_c11"],
         correspondence=correspondence,
         level="proof" if not common.open_statements("Bermuda.Properties.C11") else "translation_validation",
-        rule="random triangles (0-4 slices with up to four colliding detail keys, regular / ragged / day-level "
-             "layouts, three cell classes, 1-4 fields with mixed coverage) x {clip with 0-6 bounds drawn from the "
+        rule="random triangles (0-4 slices with up to four colliding detail keys, regular / ragged / day-level / "
+             "non-disjoint mixed-resolution layouts (periods sharing a start or an end, nested, containing), three cell classes, 1-4 fields with mixed coverage) x {clip with 0-6 bounds drawn from the "
              "triangle's own dates and lags, +-1 day, +-1 month, out of range, date.min/max; single-bound clips; "
              "complementary clip/filter pairs; mask filters; select on every subset of fields; right_edge; slices; "
              "split on every subset of detail keys; t[p, e, m] with scalar/slice/None/':'/Metadata indices; "
